@@ -220,6 +220,46 @@ func (p c09) arrays(c *core.Ctx) {
 	c.Nontrivial(fmt.Sprintf("arrays|%s|%s|%d", ft, tag, len(g.Sc.Nodes)))
 }
 
+// cyclicConfig: a required configuration value that cannot be resolved because its key sits on a cycle
+// of placeholders - of any shape, also one that passes through a plain value on every round - makes Run
+// return an error; it does not hang and no runner runs.
+func (p c09) cyclicConfig(c *core.Ctx) {
+	docs := []string{
+		"a: \"${b}\"\nb: \"${a}\"\n",
+		"a: \"${scheme}${fallback}\"\nfallback: \"${a}\"\nscheme: \"tcp:\"\n",
+		"a: \"x${b}\"\nb: \"${c}y\"\nc: \"${a}\"\n",
+		"a: \"${plain}${a}\"\nplain: p\n",
+		"a: \"${b}\"\nb: \"${p1}${c}\"\nc: \"${p2}${a}\"\np1: one\np2: 2\n",
+		"a: \"${a}\"\n",
+	}
+	doc := docs[c.Rng.Intn(len(docs))]
+	tag := []string{`value:"${a}"`, `value:"pre-${a}"`, `prop:"a"`, `value:"${plain:q}${a}"`}[c.Rng.Intn(4)]
+	g := world.NewG(c.Rng)
+	g.AddNode(world.TypesRunner[c.Rng.Intn(len(world.TypesRunner))], g.FreshName(0))
+	g.Sc.Config = doc
+	h := world.NewHolder(world.BuildStruct([]world.FieldSpec{{Name: "F", Type: reflect.TypeOf(""), Tag: tag}}))
+	r := world.Start(g.Sc, world.Options{Extra: []any{h}, NoTracer: true, BinderBudget: 20000})
+	c.Count("starts", 1)
+	c.Count("cyclic_config_starts", 1)
+	detail := map[string]any{"config": doc, "tag": tag, "outcome": core.Short(r.OutcomeDetail(), 300)}
+	switch r.Outcome() {
+	case "diverged", "stalled":
+		c.Fail("", fmt.Sprintf("required value %s over a circular configuration: App.Run does not return (%s)", tag, core.Short(r.OutcomeDetail(), 200)), detail)
+		return
+	case "panic":
+		c.Fail("", fmt.Sprintf("required value %s over a circular configuration: panic escaped App.Run: %v", tag, r.Panic), detail)
+		return
+	case "ok":
+		c.Fail("", fmt.Sprintf("required value %s over a circular configuration cannot be resolved, but App.Run returned nil (field %q)", tag, reflect.ValueOf(h).Elem().Field(0).String()), detail)
+		return
+	}
+	if runs := countEvents(r, "run"); runs != 0 {
+		c.Fail("", fmt.Sprintf("Run returned an error but %d runner(s) were invoked", runs), detail)
+		return
+	}
+	c.Nontrivial("cyclic|" + doc + tag)
+}
+
 func (p c09) Run(c *core.Ctx) {
 	if c.Index%5 == 4 {
 		p.misfit(c)
@@ -231,6 +271,10 @@ func (p c09) Run(c *core.Ctx) {
 	}
 	if c.Index%5 == 2 && c.Index%4 == 1 {
 		p.arrays(c)
+		return
+	}
+	if c.Index%5 == 2 && c.Index%4 == 3 {
+		p.cyclicConfig(c)
 		return
 	}
 	sc := RandomGraph(c.Rng, GraphOpts{MinN: 2, MaxN: 9, Types: world.TypesAll, PCycle: 0.6, Chords: 2,
@@ -284,6 +328,26 @@ func (p c09) Run(c *core.Ctx) {
 			}
 		}
 	}
+	// required points spelled out in the ways that do not say "false": still required
+	spelled := 0
+	variants := []string{",required", ",required=true", ",required=TRUE", ",required=1", ",required=yes", ",Required"}
+	for i := range sc.Nodes {
+		for slot, ts := range sc.Nodes[i].Tags {
+			if !strings.Contains(strings.ToLower(ts.Val), "required") && c.Rng.Intn(4) == 0 {
+				ts.Val += variants[c.Rng.Intn(len(variants))]
+				sc.Nodes[i].Tags[slot] = ts
+				spelled++
+			}
+		}
+		for slot, ts := range sc.Nodes[i].Cfg {
+			if !strings.Contains(strings.ToLower(ts.Val), "required") && c.Rng.Intn(4) == 0 {
+				ts.Val += variants[c.Rng.Intn(len(variants))]
+				sc.Nodes[i].Cfg[slot] = ts
+				spelled++
+			}
+		}
+	}
+	c.Count("required_points_spelled_out", spelled)
 	// service-locator lookups from inside Init (errors swallowed): a failing component may be requested
 	// more than once during one start
 	c.Count("init_lookups", AddInitLookups(c.Rng, sc, 0.3))
@@ -375,7 +439,7 @@ func (w *c09World) sites() []fault {
 			}
 		}
 		for _, cf := range world.CfgFields {
-			if t, ok := n.Cfg[cf]; ok && !strings.Contains(t.Val, "required=false") {
+			if t, ok := n.Cfg[cf]; ok && !strings.Contains(strings.ToLower(t.Val), "required=false") {
 				out = append(out, fault{Kind: "cfg", Node: i, Slot: cf})
 			}
 		}
@@ -422,18 +486,20 @@ func (w *c09World) start(faults []fault) (*world.Run, world.Expect) {
 		switch f.Kind {
 		case "point":
 			t := sc.Nodes[f.Node].Tags[f.Slot]
+			sfx := requiredSuffix(t.Val) // a spelled-out "required" stays on the point
 			if strings.HasPrefix(world.SlotByName(f.Slot).Kind, "slice") {
-				t = world.TagSpec{Tag: "wire", Val: ",qualifier=no-such-group"}
+				t = world.TagSpec{Tag: "wire", Val: ",qualifier=no-such-group" + sfx}
 			} else {
-				t = world.TagSpec{Tag: "wire", Val: "no-such-component"}
+				t = world.TagSpec{Tag: "wire", Val: "no-such-component" + sfx}
 			}
 			sc.Nodes[f.Node].Tags[f.Slot] = t
 		case "cfg":
 			t := sc.Nodes[f.Node].Cfg[f.Slot]
+			sfx := requiredSuffix(t.Val)
 			if t.Tag == "value" {
-				t.Val = "${f.removed}"
+				t.Val = "${f.removed}" + sfx
 			} else {
-				t.Val = "f.removed"
+				t.Val = "f.removed" + sfx
 			}
 			sc.Nodes[f.Node].Cfg[f.Slot] = t
 		case "init", "aps":
@@ -663,3 +729,13 @@ func creationDepthAtFailure(r *world.Run) int {
 
 // classifyC09: known-finding classes by input.
 func classifyC09(w *c09World, faults []fault) string { return "" }
+
+// requiredSuffix returns the ",required…" argument of a tag value as written ("" when there is none).
+func requiredSuffix(val string) string {
+	for _, seg := range strings.Split(val, ",")[1:] {
+		if strings.HasPrefix(strings.ToLower(seg), "required") {
+			return "," + seg
+		}
+	}
+	return ""
+}
